@@ -102,6 +102,9 @@ void shim_arm_fault(long long k, int code, bool writes_only)
     g_fault_seen = 0;
 }
 void shim_disarm() { g_fault_k = 0; }
+// Where an armed fault strikes: at the k-th statement's first sqlite3_step() (default) or at the k-th sqlite3_prepare_v2().
+static bool g_fault_at_prepare = false;
+void shim_set_fault_site(bool at_prepare) { g_fault_at_prepare = at_prepare; }
 void shim_set_step_budget(long long n) { g_step_budget = n; }
 void shim_set_inflate_budget(long long n) { g_inflate_budget = n; }
 std::vector<sqlite3*> shim_connections() { return g_conns; }
@@ -169,6 +172,24 @@ int sqlite3_close_v2(sqlite3* db)
     return fn(db);
 }
 
+int sqlite3_prepare_v2(sqlite3* db, const char* zSql, int nByte, sqlite3_stmt** ppStmt, const char** pzTail)
+{
+    static auto fn = real<int (*)(sqlite3*, const char*, int, sqlite3_stmt**, const char**)>("sqlite3_prepare_v2");
+    if (g_harness_sql || !g_fault_at_prepare || g_fault_k <= 0) return fn(db, zSql, nByte, ppStmt, pzTail);
+    std::string sql = zSql ? (nByte >= 0 ? std::string(zSql, strnlen(zSql, (size_t)nByte)) : std::string(zSql)) : std::string();
+    if (!starts_with_ci(sql.c_str(), "ROLLBACK") && ++g_fault_seen == g_fault_k)
+    {
+        // the statement cannot even be compiled (out of memory, schema locked by another connection ...)
+        g_shim.fault_fired = true;
+        g_shim.fault_sql = "[prepare] " + sql.substr(0, 150);
+        g_fault_k = 0;
+        if (ppStmt) *ppStmt = nullptr;
+        if (pzTail) *pzTail = zSql;
+        return g_fault_code;
+    }
+    return fn(db, zSql, nByte, ppStmt, pzTail);
+}
+
 int sqlite3_step(sqlite3_stmt* s)
 {
     static auto fn = real<int (*)(sqlite3_stmt*)>("sqlite3_step");
@@ -189,7 +210,7 @@ int sqlite3_step(sqlite3_stmt* s)
             ++g_shim.stmts_write;
         if (g_recent_sql.size() >= 12) g_recent_sql.pop_front();
         g_recent_sql.emplace_back(std::string(sql).substr(0, 160));
-        if (g_fault_k > 0 && !starts_with_ci(sql, "ROLLBACK") && !(g_fault_writes_only && ro))
+        if (g_fault_k > 0 && !g_fault_at_prepare && !starts_with_ci(sql, "ROLLBACK") && !(g_fault_writes_only && ro))
         {
             if (++g_fault_seen == g_fault_k)
             {
